@@ -426,7 +426,7 @@ func TestDefaultTime(t *testing.T) {
 		if tl.zoned && tl.layout != "epoch" {
 			writeLoc = time.FixedZone("", []int{0, 8 * 3600, -5 * 3600, 5*3600 + 1800}[rapid.IntRange(0, 3).Draw(t, "textzone")])
 			if tl.house {
-				writeLoc = time.FixedZone("", []int{0, 8 * 3600, 3600}[rapid.IntRange(0, 2).Draw(t, "textzone+")]) // the house pattern only covers '+' offsets
+				writeLoc = time.FixedZone("", []int{0, 8 * 3600, 3600, -5 * 3600, -(3*3600 + 1800), 5*3600 + 1800, -11 * 3600}[rapid.IntRange(0, 6).Draw(t, "textzone+")])
 			}
 		}
 		var text string
@@ -441,6 +441,12 @@ func TestDefaultTime(t *testing.T) {
 			}
 		} else {
 			text = inst.In(writeLoc).Format(tl.layout)
+			// the same instant written with a one-digit hour / day where the clock shows one
+			if h := inst.In(writeLoc).Hour(); h < 10 && strings.Contains(tl.layout, "15") && rapid.IntRange(0, 2).Draw(t, "shorthour") == 0 {
+				alt := strings.Replace(tl.layout, "15", "\x01", 1)
+				text = strings.Replace(inst.In(writeLoc).Format(alt), "\x01", fmt.Sprint(h), 1)
+				evid.Label("default_time/one-digit-hour")
+			}
 		}
 		if rapid.IntRange(0, 9).Draw(t, "garbage") == 0 {
 			text = rapid.SampledFrom([]string{"not a time", "", "2021-13-45 99:99:99", "12345", "yesterday"}).Draw(t, "garbagetext")
@@ -549,8 +555,21 @@ func genSQL(t *rapid.T) string {
 	}
 	col := rapid.SampledFrom([]string{"*", "id", "a, b", "count(*)"}).Draw(t, "col")
 	tbl := rapid.SampledFrom([]string{"t", "users", "db.tbl", "`q t`"}).Draw(t, "tbl")
-	val := rapid.SampledFrom([]string{"1", "'x'", "3.5", "'it''s'", "NULL", "(1, 2, 3)", "?"}).Draw(t, "val")
-	switch rapid.IntRange(0, 3).Draw(t, "stmt") {
+	val := rapid.SampledFrom([]string{"1", "'x'", "3.5", "'it''s'", "NULL", "(1, 2, 3)", "?", "'backslash\\'", "'a\\'b'", "'c:\\dir\\'", "'\\\\'", "\"dq\\\"", "'x\\' AND id ='1234'", "$1", "'é'"}).Draw(t, "val")
+	switch rapid.IntRange(0, 6).Draw(t, "stmt") {
+	case 4:
+		// a string literal followed by a comment that holds a quote: how the text splits into tokens depends on
+		// whether a backslash escapes the quote
+		cm := rapid.SampledFrom([]string{"-- ', b\n", "/* ' */, b ", "-- x\n", "# ' \n", "/* '' */ "}).Draw(t, "comment")
+		return fmt.Sprintf("SELECT %s %sFROM %s", val, cm, tbl)
+	case 5, 6:
+		// token soup
+		frags := []string{"SELECT ", "FROM t", " WHERE ", "a", ", b", " = ", "'a\\'", "'x'", " -- ", "'", "\n", "/* ", " */", "1", " AND id ='1234'", "'backslash\\'", "''", "\\", "\"", " ", "`", "$tag$", "N'x'", "0x1F", ";", "(", ")"}
+		var b strings.Builder
+		for i, n := 0, rapid.IntRange(2, 9).Draw(t, "nfrag"); i < n; i++ {
+			b.WriteString(frags[rapid.IntRange(0, len(frags)-1).Draw(t, "frag")])
+		}
+		return b.String()
 	case 0:
 		return fmt.Sprintf("SELECT %s FROM %s WHERE id = %s", col, tbl, val)
 	case 1:
